@@ -6,6 +6,9 @@ import PyxModel.Extract.Wire
     (c14 <diagram> <name|none> <T|F>)                 -> (ok <schema>) | (error OoaOfOoaException)
     (c14-edit <diagram> <name|none> <T|F> (<edit>…))  -> (ok <extract d> <extract (applyEdits es d)>
                                                              <schemaEdits (resolveAll d es) (extract d)>)
+                                                        | (error MetaModelException)          mkComponent d = none
+                                                        | (ok-error <extract d> MetaModelException)
+                                                                                mkComponent (applyEdits es d) = none
 -/
 namespace Pyx.Driver.C14
 open Pyx Pyx.Sexp Pyx.Extract Pyx.Extract.Wire
@@ -25,9 +28,10 @@ def handle : List Sexp → Option Sexp
       | some d, some n, some v, some es =>
         match selectComp d.containers n with
         | some comp =>
-          let s0 := extract d comp v
-          list [sym "ok", eSchema s0, eSchema (extract (applyEdits es d) comp v),
-                eSchema (schemaEdits (resolveAll d comp v es) s0)]
+          match mkComponent d comp v, mkComponent (applyEdits es d) comp v with
+          | none, _ => list [sym "error", sym "MetaModelException"]
+          | some s0, none => list [sym "ok-error", eSchema s0, sym "MetaModelException"]
+          | some s0, some s1 => list [sym "ok", eSchema s0, eSchema s1, eSchema (schemaEdits (resolveAll d comp v es) s0)]
         | none => list [sym "error", sym "OoaOfOoaException"]
       | _, _, _, _ => bad)
   | _ => none
